@@ -695,6 +695,111 @@ func runCase(c *scase) (out outcome) {
 		}
 		out.buckets = append(out.buckets, fmt.Sprintf("run/attempts=%d", len(c.attempts)))
 		out.nontriv = true
+	case "ticks":
+		r, err := setup(c, c.attempts, true)
+		if err != nil {
+			out.err = err
+			return
+		}
+		defer r.close()
+		r.cl.tickMode = true
+		r.cl.setTarget(c.upTo)
+		nodes := nodesFor(c.attempts[0])
+		// the scripted inputs: how many attempts stall or fail before the one that reaches an honest
+		// peer through non-silent ones
+		goodAt := -1
+		for a, specs := range c.attempts {
+			for _, s := range specs {
+				if s.self {
+					continue
+				}
+				if s.honest {
+					goodAt = a
+				}
+				if s.honest || s.mayStall {
+					break
+				}
+			}
+			if goodAt >= 0 {
+				break
+			}
+		}
+		const factorSlack = 2 + 1 + 1 // syncExpiryFactor periods, the tick that notices, one of slack
+		stallTick, lateRenewal := -1, ""
+		var stallCtx context.Context
+		settle := func() bool {
+			deadline := time.Now().Add(hangTimeout)
+			for stable := 0; time.Now().Before(deadline); time.Sleep(time.Millisecond) {
+				if lastRound(r.raw) >= c.upTo || r.cl.settled() {
+					if stable++; stable >= 4 {
+						return true
+					}
+				} else {
+					stable = 0
+				}
+			}
+			return false
+		}
+		for t := 1; t <= c.nticks; t++ {
+			wasBlocked, calls0, lasts0 := r.cl.blocked(), r.cl.totalCalls(), r.rec.lastCalls()
+			filled := lastRound(r.raw) >= c.upTo
+			r.clock.Advance(w.period)
+			r.sm.SendSyncRequest(r.ctx, c.upTo, nodes)
+			// Run has taken the request once it has asked the store for the last beacon
+			for t0 := time.Now(); r.rec.lastCalls() == lasts0 && time.Since(t0) < hangTimeout; time.Sleep(200 * time.Microsecond) {
+			}
+			time.Sleep(15 * time.Millisecond)
+			starts := !filled && (!wasBlocked || !r.cl.blocked()) // no Sync in flight, or it was just cancelled
+			if starts {
+				for t0 := time.Now(); r.cl.totalCalls() == calls0 && time.Since(t0) < 5*time.Second; time.Sleep(200 * time.Microsecond) {
+				}
+			}
+			if !settle() {
+				m.fail("run-attempt-hangs", fmt.Sprintf("tick %d: the Sync neither finished nor stalled", t))
+				break
+			}
+			switch cur := r.cl.blockedCtx(); {
+			case cur == nil:
+				stallTick, stallCtx = -1, nil
+			case cur != stallCtx: // another stream than the one seen blocked before
+				stallTick, stallCtx = t, cur
+			}
+			if stallTick > 0 && t-stallTick >= factorSlack && lateRenewal == "" {
+				lateRenewal = fmt.Sprintf("a Sync blocked on a silent stream since tick %d is still not cancelled at tick %d, although a sync request arrived at every tick", stallTick, t)
+			}
+		}
+		inflight := r.cl.blocked()
+		res := "(SyncErr EFailedAll)"
+		if lastRound(r.raw) >= c.upTo {
+			res = "SyncOk"
+		} else if inflight {
+			res = "(SyncBlocked ECanceled)"
+		}
+		obs, _ := r.obsTerm(res)
+		out.line = fmt.Sprintf("CTicks %s %s %s %s %d %d%%nat %s %s %s", coqBool(w.chained), coqBackend(c.bk),
+			r.validTerm(), r.baseTerm(), c.upTo, c.nticks, r.attemptsTerm(), coqBool(inflight), obs)
+		m.checkPuts(r, true)
+		// M (C05 and C10, same observation): stuck syncs are cancelled and restarted after a few
+		// periods without progress; with a healthy peer available the store reaches the target
+		if goodAt >= 0 && c.nticks >= 3*goodAt+3 {
+			out.buckets = append(out.buckets, fmt.Sprintf("ticks/stalled-or-failed-attempts=%d", goodAt))
+			what := ""
+			if lateRenewal != "" {
+				what = lateRenewal
+			}
+			if lastRound(r.raw) != c.upTo {
+				if what != "" {
+					what += "; "
+				}
+				what += fmt.Sprintf("after %d periods with one sync request each the store is at round %d, target %d, although attempt %d of the script reaches a healthy peer", c.nticks, lastRound(r.raw), c.upTo, goodAt+1)
+			}
+			if what != "" {
+				m.fail("C10-stuck-sync-never-restarted", what)
+				m.fail("C05-stuck-sync-never-restarted", what)
+			}
+		}
+		out.buckets = append(out.buckets, "ticks/"+res)
+		out.nontriv = true
 	case "follow":
 		return runFollow(c)
 	}
